@@ -143,6 +143,79 @@ def all_strings(body: List[Any]) -> Set[Optional[str]]:
     return {clean(s[1]) for s in all_stmts(body) if s[0] == 5}
 
 
+
+def is_property_def(s: Any) -> bool:
+    return any(d[1] and (d[1][-1].endswith('property') or d[1][-1].endswith('Property')) for d in s[2])
+
+
+def attr_doc_truth(body: List[Any]) -> Tuple[Dict[Tuple[str, ...], Dict[str, Optional[str]]], Set[Tuple[str, ...]]]:
+    """Generator-side ground truth for VARIABLE docstrings (CPython has none): a string statement is the docstring of a
+    variable exactly when it IMMEDIATELY follows, in the same suite, an assignment whose (last) target is that variable
+    (`x = ..`, `a = x = ..`, `x: T = ..`, and `self.x = ..` in a method).  A string statement that follows a def, a class or
+    another string statement is nobody's docstring.  Every other position (after `pass`, after a compound statement, first
+    statement of a compound body, after tuple unpacking / an old-style wrapping / an augmented assignment) is left unjudged:
+    the namespace it could touch is returned in `tainted` and its variables are not compared.
+    Returns ({namespace path (class names): {variable: cleaned docstring}}, tainted namespace paths)."""
+    truth: Dict[Tuple[str, ...], Dict[str, Optional[str]]] = {}
+    tainted: Set[Tuple[str, ...]] = set()
+    seen_classes: Dict[Tuple[Tuple[str, ...], str], int] = {}
+
+    def suite(stmts: List[Any], path: Tuple[str, ...], kind: str, first_is_doc: bool) -> None:
+        for i, s in enumerate(stmts):
+            t = s[0]
+            if t == 5:
+                if i == 0:
+                    if not first_is_doc:
+                        tainted.add(path)
+                    continue
+                prev = stmts[i - 1]
+                tgt = None
+                if prev[0] == 2:
+                    rhs = prev[2]
+                    wrapping = rhs[0] == 2 and rhs[1] in ('staticmethod', 'classmethod', 'property')
+                    if not wrapping and rhs[0] != 1:              # not an old-style decoration, not an alias
+                        tgt = prev[1][-1]
+                elif prev[0] == 3:
+                    tgt = prev[1]
+                if tgt is not None:
+                    if tgt[0] == 0 and kind in ('module', 'class'):
+                        truth.setdefault(path, {})[tgt[1]] = clean(s[1])
+                    elif tgt[0] == 2 and kind == 'method':
+                        truth.setdefault(path, {})[tgt[1]] = clean(s[1])
+                    else:
+                        tainted.add(path)
+                elif prev[0] in (0, 1, 5) and kind in ('module', 'class'):
+                    pass                                   # nobody's docstring
+                elif prev[0] == 5:
+                    pass
+                else:
+                    tainted.add(path)
+            elif t == 0:
+                if kind == 'class' and not is_property_def(s):
+                    suite(s[4], path, 'method', True)
+            elif t == 1:
+                if kind in ('module', 'class'):
+                    k = (path, s[1])
+                    seen_classes[k] = seen_classes.get(k, 0) + 1
+                    suite(s[3], path + (s[1],), 'class', True)
+            elif t == 6:
+                if s[1] != 0:
+                    suite(s[2], path, kind, False)
+            elif t in (7, 8, 10):
+                suite(s[1], path, kind, False)
+            elif t == 9:
+                suite(s[2], path, kind, False)
+    suite(body, (), 'module', True)
+    for (path, name), n in seen_classes.items():
+        if n > 1:
+            tainted.add(path + (name, '*'))               # a class statement executed twice: bodies cannot be told apart
+    return truth, tainted
+
+
+def ns_tainted(rel: Tuple[str, ...], tainted: Set[Tuple[str, ...]]) -> bool:
+    return rel in tainted or any(rel[:k] + ('*',) in tainted for k in range(1, len(rel) + 1))
+
+
 # ------------------------------------------------------------------ the property, stated on the two observations
 def ann_matches(ann: str, ty: List[Any]) -> bool:
     m = re.match(r'^(\w+)(?:\[(.*)\])?$', ann)
@@ -161,7 +234,7 @@ def ann_matches(ann: str, ty: List[Any]) -> bool:
 
 
 def oracle_ns(path: str, doc: List[Dict[str, Any]], py: List[Dict[str, Any]], in_class: bool, ctx: Dict[str, Any],
-              out: List[Dict[str, Any]], cls_info: Optional[Dict[str, Any]] = None) -> None:
+              out: List[Dict[str, Any]], cls_info: Optional[Dict[str, Any]] = None, rel: Tuple[str, ...] = ()) -> None:
     """C03 on one namespace: `doc` = what pydoctor documents there, `py` = what CPython bound there."""
     d = {e['n']: e for e in doc}
     p = {e['n']: e for e in py if e['t'] not in ('M',) and not e['n'].startswith(('imp_', '_i'))}
@@ -170,6 +243,12 @@ def oracle_ns(path: str, doc: List[Dict[str, Any]], py: List[Dict[str, Any]], in
         out.append({'ns': path, 'name': n, 'what': what, 'pydoctor': dv, 'cpython': pv, 'class': cls})
     if len(d) != len(doc):
         rec('twice', '?', [e['n'] for e in doc], None)
+    # docstrings of variables: against the generator's ground truth (see attr_doc_truth)
+    want_docs = ctx['attr_truth'].get(rel, {})
+    if not ns_tainted(rel, ctx['attr_taint']) and all(n in d and d[n]['t'] == 'A' for n in want_docs):
+        for e in doc:
+            if e['t'] == 'A' and e['k'] != 'PROPERTY' and e['doc'] != want_docs.get(e['n']):
+                rec('variable-docstring', e['n'], e['doc'], {'generator ground truth': want_docs.get(e['n'])})
     for e in doc:
         if not e.get('ok', True):
             rec('twice', e['n'], 'contents key / object name / registry entry disagree', None)
@@ -210,12 +289,14 @@ def oracle_ns(path: str, doc: List[Dict[str, Any]], py: List[Dict[str, Any]], in
                 and de['k'] != 'INSTANCE_VARIABLE' and not ann_matches(de['ann'], pe['ty']):
             rec('type', n, de['ann'], pe['ty'], 'inferred-type-stale-after-tuple-unpacking' if n in ctx['tuple_targets'] else None)
         if pe['t'] == 'C' and de['t'] == 'C':
-            oracle_ns(path + '.' + n, de['c'], pe['ns'], True, ctx, out, pe)
+            oracle_ns(path + '.' + n, de['c'], pe['ns'], True, ctx, out, pe, rel + (n,))
 
 
 def oracle_module(fullname: str, body: List[Any], doc_mod: Dict[str, Any], py_mod: Dict[str, Any]) -> List[Dict[str, Any]]:
     out: List[Dict[str, Any]] = []
-    ctx = {'annotated': annotated_names(body), 'strings': all_strings(body), 'tuple_targets': tuple_target_names(body)}
+    truth, taint = attr_doc_truth(body)
+    ctx = {'annotated': annotated_names(body), 'strings': all_strings(body), 'tuple_targets': tuple_target_names(body),
+           'attr_truth': truth, 'attr_taint': taint}
     if doc_mod['doc'] != py_mod['doc']:
         out.append({'ns': fullname, 'name': '', 'what': 'docstring', 'pydoctor': doc_mod['doc'], 'cpython': py_mod['doc'], 'class': None})
     oracle_ns(fullname, doc_mod['c'], py_mod['ns'], False, ctx, out)
@@ -287,6 +368,15 @@ PRELUDE = [[0, 'deco', [], False, [[12, 'return f']], 'f']]
 def corpus() -> List[Dict[str, Any]]:
     """boundary cases named in DESIGN.md 5.C03 / found while building, one module each"""
     progs: List[Tuple[str, List[Any]]] = [
+        # a string statement after a class / nested class / def / block is not the docstring of the last variable assigned inside
+        ('string_after_scopes', [
+            [1, 'Config', [], [S('Settings.'), [2, [[0, 'retries']], lit([0, 3])], S('How often to retry.'), [2, [[0, 'timeout']], lit([0, 30])]]],
+            S('---- section banner ----'),
+            [1, 'Outer', [], [[1, 'Inner', [], [[2, [[0, 'depth']], X1]]], S('x = old_code()'), [2, [[0, 'after']], X1], S('doc after'),
+                              [0, 'meth', [], False, [[2, [[2, 'iv']], X1]]], S('not for iv')]],
+            [0, 'func', [], False, [[12, 'x = 1']]], S('nobody'),
+            [2, [[0, 'last']], X1], [2, [[0, 'a'], [0, 'b']], X1], S('doc b'),
+            [6, 1, [[2, [[0, 'in_if']], X1]], [], 0], S('after a block (unjudged)')]),
         ('inherited_shadow', [[1, 'A', [], [[0, 'f', [], False, []]]], [1, 'B', ['A'], [[2, [[0, 'f']], [0, [5]]], [2, [[0, 'g']], X1]]]]),
         ('string_after_property', [[1, 'C', [], [[0, 'p', [[0, ['property']]], False, [S('real doc')]], S('stray')]]]),
         ('property_then_self', [[1, 'C', [], [[0, 'x', [[0, ['property']]], False, [S('d')]],
@@ -433,7 +523,9 @@ class Check(PropertyCheck):
                  'property assigned through self (76cecbe), ExceptionGroup/BaseExceptionGroup/EncodingWarning bases (7fd5e3f). Tie: '
                  'doc_walk vs the real builder on every sequence of <= 2 (quick) / 3 (thorough) statement templates and on random packages; '
                  'oracle = pydoctor build vs CPython import of the same generated packages.'),
-        'note': ('Partial: bindings in else/except/finally suites and untaken ifs, aliases `x = y`, annotations without value, rebinding a '
+        'note': ('Variable docstrings are compared with the generator ground truth (string immediately after the assignment in the same '
+                 'suite; after def/class/string: nobody); positions after pass/compound statements/tuple unpacking are left unjudged. '
+                 'Partial: bindings in else/except/finally suites and untaken ifs, aliases `x = y`, annotations without value, rebinding a '
                  'function or class by a plain assignment, `x = property(f)`, setter/deleter/overload decorators are outside the agreed subset '
                  '(py_exec = None); CLASS/EXCEPTION is proved for module-level classes only; imported base classes are checked by the oracle '
                  'only. Trusted: Coq kernel, translator gen_c03.py, extraction + driver, harness and pretty-printer, cleandoc oracle.'),
